@@ -54,6 +54,9 @@ func genC19(seed uint64, tier string) *plan.Plan {
 			if op.B > 0 && r.IntN(8) == 0 {
 				op.T = 1 + r.IntN(int(op.B)) // one record of the message cannot be encoded (T-1 = its index)
 			}
+			if r.IntN(8) == 0 {
+				op.S = "bare"
+			}
 			pl.Ops = append(pl.Ops, op)
 		}
 		if r.IntN(4) == 0 {
@@ -100,7 +103,10 @@ type c19Rec struct {
 	poison bool
 }
 
-func c19Data(seed int64, nrec int, v6 bool, poisonAt int) (*entities.Message, []c19Rec) {
+// bare: a message assembled by the application itself rather than by a collecting process - header
+// fields left at zero, no export address - whose records carry no address elements; about half of
+// them hold nothing but zeros and empty strings (every mapped field at its default).
+func c19Data(seed int64, nrec int, v6 bool, poisonAt int, bare bool) (*entities.Message, []c19Rec) {
 	r := rand.New(rand.NewPCG(uint64(seed), 0x19))
 	A, I := registry.AntreaEnterpriseID, registry.IANAEnterpriseID
 	msg := entities.NewMessage(true)
@@ -110,10 +116,14 @@ func c19Data(seed int64, nrec int, v6 bool, poisonAt int) (*entities.Message, []
 	if v6 {
 		addr = fmt.Sprintf("fd00::%x", 1+r.IntN(60000))
 	}
+	if bare {
+		et, sq, dom, addr = 0, 0, 0, ""
+	} else {
+		msg.SetExportAddress(addr)
+	}
 	msg.SetExportTime(et)
 	msg.SetSequenceNum(sq)
 	msg.SetObsDomainID(dom)
-	msg.SetExportAddress(addr)
 	set := entities.NewSet(true)
 	set.PrepareSet(entities.Data, 256)
 	var recs []c19Rec
@@ -153,7 +163,12 @@ func c19Data(seed int64, nrec int, v6 bool, poisonAt int) (*entities.Message, []
 			c.poison = true
 		}
 		var els []entities.InfoElementWithValue
-		if v6 {
+		if bare && i != poisonAt {
+			if r.IntN(2) == 0 {
+				c = c19Rec{}
+			}
+			c.srcIP, c.dstIP = "", ""
+		} else if v6 {
 			s, d := net.ParseIP(fmt.Sprintf("2001:db8::%x", 1+r.IntN(60000))), net.ParseIP(fmt.Sprintf("2001:db8:1::%x", 1+r.IntN(60000)))
 			c.srcIP, c.dstIP = s.String(), d.String()
 			els = append(els, entities.NewIPAddressInfoElement(ie("sourceIPv6Address", I), s), entities.NewIPAddressInfoElement(ie("destinationIPv6Address", I), d))
@@ -260,7 +275,7 @@ func runC19(pl *plan.Plan, out *plan.Outcome) {
 				m = c19Template(op.C)
 			} else {
 				var recs []c19Rec
-				m, recs = c19Data(op.C, int(op.B), op.D == 1, int(op.T)-1)
+				m, recs = c19Data(op.C, int(op.B), op.D == 1, int(op.T)-1, op.S == "bare")
 				expected = append(expected, recs...)
 			}
 			Block("feed", func() { msgCh <- m })
